@@ -1617,8 +1617,12 @@ namespace adept {
     }
 
     // By design, FixedArrays are row-major and row-wise access is
-    // contiguous
-    bool all_arrays_contiguous_() const { return true; }
+    // contiguous, but rows are not padded: packets can only be used
+    // for rank > 1 if every row starts at the same alignment, i.e. if
+    // the row length is a multiple of the packet size
+    bool all_arrays_contiguous_() const {
+      return rank < 2 || dimension_<rank-1>::value % Packet<Type>::size == 0;
+    }
  
     bool is_aligned_() const {
       return !(reinterpret_cast<std::size_t>(data_) & Packet<Type>::align_mask);
